@@ -13,7 +13,8 @@ Proof.
   destruct s as [k e eg c crot iso]. cbn [g_key]. intros Hk i j.
   unfold all_keys in Hk. cbn [In] in Hk.
   repeat (destruct Hk as [<- | Hk];
-          [destruct i as [|[|[|i]]], j as [|[|[|j]]]; reflexivity|]).
+          [unfold gen_fictitious_strain, fict; cbn [g_key]; key_facts;
+           destruct i as [|[|[|i]]], j as [|[|[|j]]]; reflexivity|]).
   destruct Hk.
 Qed.
 
